@@ -96,7 +96,7 @@ Print Assumptions C10_refuted_maps_not_normalised.
 Example C10_refuted_nested_http :
   let c := {| c_n := 6; c_batch := 100; c_par := 1; c_kind := KIdentity; c_full := false; c_wrap := false;
               o_outcome := 0%N; o_seen := []; o_sink := []; o_token := 0; o_rerun := -1;
-              o_copy := Some (true, 6, 6, 2, 2); c_nested := 2; o_json := None |} in
+              o_copy := Some (true, 6, 6, 2, 2); c_nested := 2; c_ffail := false; o_json := None |} in
   agree PCeilClip true c = true /\ agree PCeilClip false c = false /\ spec_ok c = false.
 Proof. vm_compute. repeat split. Qed.
 Print Assumptions C10_refuted_nested_http.
